@@ -42,6 +42,15 @@ Check (C14_exports_config : forall (c : cfg_text) (d : doc) (B B' : list defbody
   incl (map zero_export (value_exports (scan (dts_of_config c d B))))
        (value_exports (scan (js_of_config c (loader_view d) B')))
   /\ default_names (scan (dts_of_config c d B)) = default_names (scan (js_of_config c (loader_view d) B'))).
+Check (C14_history : forall (h : list lop) (cur : cfg_text),
+  Forall (fun e => match e with (c, d, B, ops) =>
+      bodies_ok B = true -> names_ok (type_from_config (parse_config c)) d = true ->
+      length B = length (defs d) ->
+      incl (map zero_export (value_exports (scan (dts_of_config c d B)))) (value_exports (scan ops))
+      /\ default_names (scan (dts_of_config c d B)) = default_names (scan ops)
+    end) (run_loader cur h)).
+Check (C14_history_last_config : forall (h : list lop) (c : cfg_text) (r : list lop) (cur : cfg_text),
+  run_loader cur (h ++ LLoad c :: r) = run_loader cur h ++ run_loader c r).
 Check (C14_exports_exact : forall (o : base_opts) (d : doc) (B : list defbody),
   bodies_ok B = true -> length B = length (defs d) ->
   (forall n p, In (Named n, p) (value_exports (scan (js_ops o d B))) <->
@@ -62,6 +71,8 @@ Print Assumptions C14_runtime_exports_partial.
 Print Assumptions C14_loadable_iff_distinct.
 Print Assumptions C14_runtime_exports_refuted.
 Print Assumptions C14_exports_config.
+Print Assumptions C14_history.
+Print Assumptions C14_history_last_config.
 Print Assumptions C14_exports_exact.
 Print Assumptions C14_js_carries.
 Print Assumptions C14_names_guard_needed.
